@@ -78,3 +78,6 @@ add("C35", "model_checking", "stateless deviation-bounded DFS over interleavings
 add("C05", "model_checking", "stateless deviation-bounded DFS over interleavings of the SyncWAL loop's events x exhaustive crash-prefix enumeration of every distinct device log, plus a WAL protocol model as trace acceptor with rule-directed power-loss witnesses",
     "real SyncWAL loop + writer with two writes to one interval + variable writer + WAL/checkpoint timers (rotation every / every 2nd checkpoint) + optional Shutdown; ALL schedules with <=2 deviations (thorough 3); every distinct device log is crashed at every prefix and restarted through the real startup path; every log is run through the protocol model (R2/R4/R5), a broken rule triggers the power-loss witness for that rule and the end-to-end oracle decides (rules are hints, never verdicts)",
     SC + "; WAL protocol model in checks/c05.go (conformance: every implementation trace is accepted or produces an executed witness)", "schedmc")
+add("C32", "model_checking", "bounded-exhaustive write histories (scripted real SyncWAL loop) plus deviation-bounded DFS over writer/dispatcher interleavings, against a reference glob matcher",
+    "sequential: all histories of <=3 writes over 4 buckets x 2 intervals with recording triggers on 4 patterns; concurrent: real SyncWAL loop + trigger dispatcher + two writers, ALL schedules with <=2 deviations (thorough 3); after the graceful shutdown drained the dispatcher the deliveries must equal: every acknowledged record once per matching trigger (component-wise, anchored), nothing else",
+    SC, "schedmc")
